@@ -366,3 +366,44 @@ bool pv_gen_place(pv_rng* r, int p, unsigned i, unsigned coin, bool loadable, un
     d[1] ^= coin & 2047;
     return true;
 }
+
+static unsigned* ov_idx[PV_MAXLANG][PV_MAXLANG]; static int ov_n[PV_MAXLANG][PV_MAXLANG]; static bool ov_done[PV_MAXLANG][PV_MAXLANG];
+static bool ov_member[PV_MAXLANG][PV_MAXLANG][PV_NWORDS];
+int pv_overlap(int a, int b, const unsigned** idx_out) {
+    if (!ov_done[a][b]) {
+        unsigned* v = pv_xmalloc(PV_NWORDS * sizeof *v); int n = 0;
+        for (unsigned i = 0; i < PV_NWORDS; ++i) {
+            int idx, nm;
+            if (pv_m_match_cp(&pv_langs[b], pv_langs[a].cp[i], pv_langs[a].ncp[i], &idx, &nm) == PV_ACCEPT) { v[n++] = i; ov_member[a][b][i] = true; }
+        }
+        ov_idx[a][b] = v; ov_n[a][b] = n; ov_done[a][b] = true;
+    }
+    if (idx_out) *idx_out = ov_idx[a][b];
+    return ov_n[a][b];
+}
+bool pv_gen_ambiguous(pv_rng* r, int a, int b, unsigned coin, unsigned enabled, unsigned d[16], pv_mseed* seed_out) {
+    const unsigned* S; int n = pv_overlap(a, b, &S);
+    if (n < 2) return false;
+    for (int attempt = 0; attempt < 400; ++attempt) {
+        unsigned c[16]; bool ok = true;
+        for (int k = 2; k < 16 && ok; ++k) {
+            int tries = 0;
+            do { c[k] = S[pv_randn(r, (uint32_t)n)]; ++tries; }
+            while (tries < 64 && ((k == 2 && (c[k] & 1)) || (k >= 3 && k <= 5 && (c[k] & 1) && !(enabled & (1u << (5 - k))))));
+            if (tries >= 64) ok = false;
+        }
+        if (!ok) continue;
+        int start = (int)pv_randn(r, (uint32_t)n);
+        for (int t = 0; t < n; ++t) {
+            unsigned w1 = S[(start + t) % n];          /* the word shown at position 2 */
+            c[1] = (w1 ^ coin) & 2047;
+            c[0] = pv_m_checkvalue(c);
+            if (ov_member[a][b][c[0]]) {
+                if (seed_out) pv_m_unpack(c, seed_out);
+                memcpy(d, c, sizeof c); d[1] ^= coin & 2047;
+                return true;
+            }
+        }
+    }
+    return false;
+}
